@@ -86,7 +86,7 @@ TECHNIQUE = "Lean 4 invariant over arbitrary step lists (writer, reader, adversa
 LEVEL_TEXT = ("Kernel-checked Lean theorem C02_subsequence: for EVERY step list of the system model (writes of any payload, removals, ticks, "
               "match and re-match, and an adversary that delivers any in-flight datagram, drops and duplicates) the best-effort reader's "
               "delivered list is a sub-list of the publication log - strictly increasing sequence numbers, each entry equal to the published "
-              "change, payload included, fragmented or not (C02_frag_no_resurrect for stale fragments; C02_gap_never_rewinds and C02_hb_never_reopens: C02_forged_hb_no_duplicate (in every reachable state a HEARTBEAT of any content followed by a copy of the DATA of any delivered sample leaves the delivered list as it was); no GAP and no HEARTBEAT, whatever its first/last/count/flags - also one whose first lies below what the reader has seen - changes the delivered list, lowers highest_received_change_sn or makes a DATA of an already received number acceptable again; the HEARTBEAT branch of the model is validated against the code on reliable readers (C01/C03 runs), by forged HEARTBEATs in the C06 runs and, for the best-effort reader, by the forgehb directive of this check). Proved for the tree with "
+              "change, payload included, fragmented or not (C02_frag_no_resurrect for stale fragments; C02_gap_never_rewinds and C02_hb_never_reopens: C02_forged_gap_no_duplicate / C02_forged_hb_no_duplicate (in every reachable state a GAP / HEARTBEAT of any content followed by a copy of the DATA of any delivered sample leaves the delivered list as it was); no GAP and no HEARTBEAT, whatever its first/last/count/flags - also one whose first lies below what the reader has seen - changes the delivered list, lowers highest_received_change_sn or makes a DATA of an already received number acceptable again; the HEARTBEAT branch of the model is validated against the code on reliable readers (C01/C03 runs), by forged HEARTBEATs in the C06 runs and, for the best-effort reader, by the forgehb directive of this check). Proved for the tree with "
               "fixes/D43.patch; the as-is re-announcement witness is C02_rematch_duplicates_asis_counterexample. Tied to the code by "
               "differential runs of every emitted datagram (all fields) and the delivered list after every step.")
 LEVEL_NOTE = ("Trusted: Lean kernel; Model/Rtps.lean (one writer, one reader, Nat sequence numbers and counts); harness/src/bin/rtps.rs with its "
